@@ -156,6 +156,12 @@ def c17_stress(ctx, tier, seed, run_engine):
     if not ok:
         return _res(label, run, "inconclusive", why="harness build failed:\n" + out[-3000:])
     exe = engine_path(ctx, "racemon", "release")
+    # the child processes of the first-use / simultaneous-rounds phases run the UNOPTIMISED build (what `cargo test` runs):
+    # the windows of lock-free code are widest there
+    ok_u, out_u = cargo_build(ctx, ["racemon"], "unopt")
+    if not ok_u:
+        return _res(label, run, "inconclusive", why="harness build (profile unopt) failed:\n" + out_u[-3000:])
+    exe_unopt = engine_path(ctx, "racemon", "unopt")
     os.makedirs(ctx.work, exist_ok=True)
     workers = 8
     per = 3_000_000 if tier == "thorough" else 600_000
@@ -176,7 +182,7 @@ def c17_stress(ctx, tier, seed, run_engine):
     same = open(refs[0], "rb").read() == open(refs[1], "rb").read()
     run = dict(run)
     run["args"] = ["--mode", "stress", "--reference", refs[0], "--ref-threads", str(ref_threads), "--reference-stable", "yes" if same else "no",
-                   "--workers", str(workers), "--creations", str(per), "--rounds", str(rounds)]
+                   "--workers", str(workers), "--creations", str(per), "--rounds", str(rounds), "--child-exe", exe_unopt]
     r = run_engine(ctx, run, tier, seed, label=label)
     for p in refs:
         try:
